@@ -11,6 +11,7 @@ EPV/Model/EHEP.lean gives the half-planes.  `ehep_region_I_xi`: the fields as ex
 of ξ = x/t.
 -/
 import EPV.Lemmas.EHEP
+import EPV.Gen.EHEPInit
 
 set_option linter.all false
 
@@ -38,6 +39,39 @@ theorem ehep_region_I_xi (p : EHEP.P) (x t : ℝ) (ha : Accepted p) (hr : p.regi
   rw [a1, a2, a4, a5]
   simp only [epv_leaf]
   refine ⟨by ring, by ring, trivial, trivial⟩
+
+/-- **Region I by half-planes.**  The three edge cross products `(b - a) × (P - a)` of the traced polygon
+`corners['I']` (`EHEPInit`, corners 0, 1, 2 in the code's order) are positive multiples of
+  `D t - x` (left of the front, curve A), `-(D/2)(t - t̃) - (x - x̃)` (before the first reflected
+  characteristic, curve D) and `x - (2 u_p + D/2) t` (right of curve C):
+the half-planes the hand model EPV/Model/EHEP.lean tests (`insideHP`) are the ones the C17 hypotheses name.
+The factor of the middle one is positive iff u_p < D/4, i.e. for the documented γ = 3. -/
+theorem ehep_region_I_halfplanes (p : EHEPInit.P) (x t : ℝ) (h : EHEPInit.outcome p = .ok) :
+    (EHEPInit.cI_1_x p - EHEPInit.cI_0_x p) * (t - EHEPInit.cI_0_t p)
+        - (EHEPInit.cI_1_t p - EHEPInit.cI_0_t p) * (x - EHEPInit.cI_0_x p)
+      = p.xtilde / p.D * (p.D * t - x) ∧
+    (EHEPInit.cI_2_x p - EHEPInit.cI_1_x p) * (t - EHEPInit.cI_1_t p)
+        - (EHEPInit.cI_2_t p - EHEPInit.cI_1_t p) * (x - EHEPInit.cI_1_x p)
+      = (EHEPInit.cI_2_t p - EHEPInit.cI_1_t p) * (-(p.D / 2) * (t - p.xtilde / p.D) - (x - p.xtilde)) ∧
+    (EHEPInit.cI_0_x p - EHEPInit.cI_2_x p) * (t - EHEPInit.cI_2_t p)
+        - (EHEPInit.cI_0_t p - EHEPInit.cI_2_t p) * (x - EHEPInit.cI_2_x p)
+      = EHEPInit.cI_2_t p * (x - (2 * p.up + p.D / 2) * t) ∧
+    0 < p.xtilde / p.D ∧ 0 < EHEPInit.cI_2_t p ∧
+    (0 < EHEPInit.cI_2_t p - EHEPInit.cI_1_t p ↔ p.up < p.D / 4) := by
+  simp only [epv_tree] at *
+  split_ifs at * <;> first
+    | epv_absurd
+    | (simp only [epv_cond, not_le, not_lt] at *
+       have hD : p.D ≠ 0 := by linarith
+       have h2 : 0 < 2 * p.up + p.D := by linarith
+       have h4 : 4 * p.up + 2 * p.D ≠ 0 := by linarith
+       simp only [epv_leaf]
+       refine ⟨by field_simp; ring, by field_simp; ring, by field_simp; ring, by positivity, by positivity, ?_⟩
+       rw [show (3 : ℝ) / 2 * p.xtilde / (2 * p.up + p.D) - p.xtilde / p.D
+          = p.xtilde * (p.D / 4 - p.up) * (2 / (p.D * (2 * p.up + p.D))) by field_simp; ring]
+       have : 0 < 2 / (p.D * (2 * p.up + p.D)) := by positivity
+       rw [mul_pos_iff_of_pos_right this, mul_pos_iff_of_pos_left (by assumption)]
+       constructor <;> intro h' <;> linarith)
 
 /-- non-vacuity: the default parameters are accepted -/
 example : ∃ p : EHEP.P, Accepted p ∧ p.region = 1 := by
